@@ -313,6 +313,10 @@ impl Rep {
 #[derive(Clone, Debug, PartialEq, Eq, Serialize, Deserialize)]
 pub enum Re {
     Lit(char),
+    /// `^`: start of the line (zero width)
+    Start,
+    /// `$`: end of the line (zero width; the final newline is not part of the line)
+    End,
     Dot,
     /// negated?, inclusive ranges (single characters are (c, c))
     Class(bool, Vec<(char, char)>),
@@ -356,6 +360,8 @@ fn re_render_into(r: &Re, ctx: u8, s: &mut String) {
             s.push(*c);
         }
         Re::Dot => s.push('.'),
+        Re::Start => s.push('^'),
+        Re::End => s.push('$'),
         Re::Class(neg, items) => {
             s.push('[');
             if *neg {
@@ -410,14 +416,15 @@ pub fn re_render(r: &Re) -> String {
 pub fn re_wellformed(r: &Re) -> bool {
     match r {
         Re::Lit(c) => *c != '\n',
-        Re::Dot => true,
+        Re::Dot | Re::Start | Re::End => true,
         Re::Class(_, items) => !items.is_empty() && items.iter().all(|(a, b)| a <= b && *a != '\n' && *b != '\n'),
         Re::Group(i) => re_wellformed(i) && !is_empty_concat(i),
         Re::Concat(v) => v.iter().all(|x| re_wellformed(x) && !is_empty_concat(x)),
         Re::Alt(v) => v.len() >= 2 && v.iter().all(|x| re_wellformed(x) && !is_empty_concat(x)),
         Re::Repeat(i, rep) => {
             let (m, n) = rep.bounds();
-            re_wellformed(i) && n.map_or(true, |n| m <= n) && m <= 6 && n.unwrap_or(0) <= 6 && !is_empty_concat(i)
+            // a repetition directly over an anchor is left to the engine's discretion
+            re_wellformed(i) && n.map_or(true, |n| m <= n) && m <= 6 && n.unwrap_or(0) <= 6 && !is_empty_concat(i) && !matches!(&**i, Re::Start | Re::End)
         }
     }
 }
@@ -438,6 +445,8 @@ pub fn re_size(r: &Re) -> usize {
 /// flattened program for the evaluator
 enum Node {
     Lit(char),
+    Start,
+    End,
     Dot,
     Class(bool, Vec<(char, char)>),
     Concat(Vec<usize>),
@@ -449,6 +458,8 @@ fn flatten(r: &Re, nodes: &mut Vec<Node>) -> usize {
     let n = match r {
         Re::Lit(c) => Node::Lit(*c),
         Re::Dot => Node::Dot,
+        Re::Start => Node::Start,
+        Re::End => Node::End,
         Re::Class(neg, items) => Node::Class(*neg, items.clone()),
         Re::Group(i) => return flatten(i, nodes),
         Re::Concat(v) => Node::Concat(v.iter().map(|x| flatten(x, nodes)).collect()),
@@ -479,6 +490,21 @@ impl Eval<'_> {
         let r = match &self.nodes[n] {
             Node::Lit(c) => one(self.line.get(pos) == Some(c)),
             Node::Dot => one(self.line.get(pos).is_some_and(|c| *c != '\n')),
+            // zero-width assertions on the line (no multi-line mode)
+            Node::Start => {
+                if pos == 0 {
+                    1u128 << pos
+                } else {
+                    0
+                }
+            }
+            Node::End => {
+                if pos == self.line.len() {
+                    1u128 << pos
+                } else {
+                    0
+                }
+            }
             Node::Class(neg, items) => match self.line.get(pos) {
                 None => 0,
                 Some(c) => one(items.iter().any(|(a, b)| a <= c && c <= b) != *neg),
@@ -569,6 +595,7 @@ fn re_sample_into(r: &Re, rng: &mut Rng, pool: &[char], s: &mut String) -> Optio
     match r {
         Re::Lit(c) => s.push(*c),
         Re::Dot => s.push(*rng.pick(pool)),
+        Re::Start | Re::End => {}
         Re::Class(false, items) => {
             let (a, b) = *rng.pick(items);
             let span = b as u32 - a as u32;
@@ -625,6 +652,8 @@ pub fn re_tags(r: &Re, top: bool, out: &mut Vec<String>) {
             }
         }
         Re::Dot => add("dot"),
+        Re::Start => add("anchor-start"),
+        Re::End => add("anchor-end"),
         Re::Class(neg, items) => {
             add(if *neg { "negclass" } else { "class" });
             if items.iter().any(|(a, b)| CLASS_META.contains(a) || CLASS_META.contains(b)) {
@@ -663,6 +692,7 @@ pub fn re_shrinks(r: &Re) -> Vec<Re> {
             }
         }
         Re::Dot => out.push(Re::Lit('a')),
+        Re::Start | Re::End => {}
         Re::Class(neg, items) => {
             out.push(Re::Lit(items[0].0));
             if items.len() > 1 {
@@ -850,6 +880,17 @@ mod tests {
         assert!(m(&rg, "ab") && !m(&rg, "aba") && !m(&rg, ""));
         assert_eq!(re_render(&Re::Concat(vec![alt.clone(), Re::Repeat(Box::new(Re::Concat(vec![a.clone(), b.clone()])), Rep::Plus)])), "(a|b)(ab)+");
         assert_eq!(re_render(&alt), "a|b");
+        // `^foo|bar$` read as a whole-line match accepts exactly `foo` and `bar`
+        let anch = Re::Alt(vec![
+            Re::Concat(vec![Re::Start, Re::Lit('f'), Re::Lit('o')]),
+            Re::Concat(vec![Re::Lit('b'), Re::Lit('a'), Re::End]),
+        ]);
+        assert_eq!(re_render(&anch), "^fo|ba$");
+        assert!(m(&anch, "fo") && m(&anch, "ba") && !m(&anch, "fox") && !m(&anch, "xba") && !m(&anch, "foba"));
+        let lit_dollar = Re::Concat(vec![Re::Start, Re::Lit('5'), Re::Lit('$')]);
+        assert_eq!(re_render(&lit_dollar), "^5\\$");
+        assert!(m(&lit_dollar, "5$") && !m(&lit_dollar, "5$x") && !m(&lit_dollar, "5"));
+        assert!(!m(&Re::Concat(vec![Re::Lit('a'), Re::Start, Re::Lit('b')]), "ab"));
         let cl = Re::Class(true, vec![('a', 'c'), (']', ']')]);
         assert_eq!(re_render(&cl), "[^a-c\\]]");
         assert!(m(&cl, "x") && !m(&cl, "b") && !m(&cl, "]"));
